@@ -187,20 +187,23 @@ fn build(c: &Case, with: [bool; 2], f: &Factory) -> Built {
     world.cas.push(root_ca());
     let mut https_tas: Vec<(usize, String)> = Vec::new();
     let mut rrdp_cas: Vec<(usize, String)> = Vec::new();
+    // kind "mftr": the CAs whose objects the one RRDP repository FIXED_NOTIFY publishes
+    let mut shared_rrdp: Vec<usize> = Vec::new();
     for i in 0..2 {
         if !with[i] { continue }
         let n = i + 1;
         let addr = format!("10.{n}.0.0");
         let idx = world.cas.len();
         match c.kind.as_str() {
-            "mft" | "mftn" => {
+            "mft" | "mftn" | "mftr" => {
                 let (dir, name) = split_dir(&c.u[i]);
                 let mut ca = Ca::new(&format!("c{n}"), Some(0), n, &dir);
                 ca.mft_name = Some(name);
                 ca.prefixes = vec![format!("{addr}/16")];
                 ca.asns = vec![(64500 + n as u32, 64500 + n as u32)];
                 ca.objects.push(roa_obj(&format!("c{n}.roa"), 64500 + n as u32, &addr, 16));
-                if c.kind == "mftn" { ca.notify = Some(FIXED_NOTIFY.into()); }
+                if c.kind == "mftn" || c.kind == "mftr" { ca.notify = Some(FIXED_NOTIFY.into()); }
+                if c.kind == "mftr" { shared_rrdp.push(idx); }
                 world.cas.push(ca);
             }
             "notify" | "notify1" => {
@@ -242,6 +245,30 @@ fn build(c: &Case, with: [bool; 2], f: &Factory) -> Built {
         let snap_uri = format!("{}/verif-snapshot-{idx}.xml", &notify[..auth_end]);
         let (n, s) = rrdp_documents(&snap_uri, &files);
         http.insert(notify.clone(), n);
+        http.insert(snap_uri, s);
+    }
+    if c.kind == "mftr" {
+        // one snapshot with the objects of both CAs.  Like an rsync tree, the dump directory cannot hold a file and a
+        // directory of one name: of two CAs where an object of one is a directory of the other only the first publishes
+        // (Paths.tla, Published)
+        let canon = |u: &str| -> String {
+            match u.find("://").and_then(|i| u[i + 3..].find('/').map(|j| i + 3 + j)) {
+                Some(k) => format!("{}{}", u[..k].to_ascii_lowercase(), &u[k..]), None => u.to_string() }
+        };
+        let mut files: Vec<(String, Bytes)> = Vec::new();
+        for (k, idx) in shared_rrdp.iter().enumerate() {
+            let repo = world.cas[*idx].repo.clone();
+            let own: Vec<(String, Bytes)> = published.files.iter().filter(|(u, _)| u.starts_with(&repo)).map(|(u, b)| (u.clone(), b.clone())).collect();
+            let clash = k > 0 && own.iter().any(|(u, _)| files.iter().any(|(v, _)| {
+                let (a, b) = (canon(u), canon(v));
+                a == b || a.starts_with(&format!("{b}/")) || b.starts_with(&format!("{a}/"))
+            }));
+            if !clash { files.extend(own); }
+        }
+        let auth_end = FIXED_NOTIFY[8..].find('/').map(|i| i + 8).unwrap_or(FIXED_NOTIFY.len());
+        let snap_uri = format!("{}/verif-snapshot-shared.xml", &FIXED_NOTIFY[..auth_end]);
+        let (n, s) = rrdp_documents(&snap_uri, &files);
+        http.insert(FIXED_NOTIFY.to_string(), n);
         http.insert(snap_uri, s);
     }
     Built { published, http, marks }
@@ -412,7 +439,7 @@ struct Worker<'a> {
 }
 
 impl Worker<'_> {
-    fn needs_http(kind: &str) -> bool { kind == "tah" || kind.starts_with("notify") }
+    fn needs_http(kind: &str) -> bool { kind == "tah" || kind == "mftr" || kind.starts_with("notify") }
     fn uses_rrdp(kind: &str) -> bool { kind != "mft" && kind != "ta" }
 
     fn observe(&mut self, c: &Case, with: [bool; 2]) -> Obs {
@@ -562,6 +589,8 @@ fn one(rep: &mut Report, w: &mut Worker, c: &Case) {
         // Below cache/rsync/ and dump/ the tree mirrors the remote one: a file above another URI's file there is a
         // clash the remote tree has itself (no rsync server can publish both); it says nothing about routinator's
         // naming.  A shared file does.  (A dump that fails only for both together is caught below.)
+        // kind "mftr": both CAs live in one RRDP repository, its archive belongs to both
+        if c.kind == "mftr" && a.starts_with("cache/rrdp/") && b.starts_with("cache/rrdp/") { continue }
         if *k == "file-vs-directory" && (area == "rsync-copy" || area == "dump") {
             rep.add_note(P, "remote_tree_clashes_ignored", 1);
             continue
@@ -684,6 +713,8 @@ pub fn main(args: &Args) -> i32 {
         k.sort();
         if seen.insert((c.kind.clone(), k)) { cases.push(c) }
     }
+    // equivalent manifest URIs in one RRDP snapshot would be one object published twice
+    cases.retain(|c| !(c.kind == "mftr" && c.eq));
     let only = args.opt("kinds").map(|s| s.split('+').map(String::from).collect::<Vec<_>>());
     if let Some(only) = only.as_ref() { cases.retain(|c| only.contains(&c.kind)); }
     let limit = args.opt_usize("limit", usize::MAX);
